@@ -165,6 +165,14 @@ fn write_doc(fields: &Value) -> String {
   format!("{{{}}}", parts.join(","))
 }
 
+pub fn hash_of_tree(tree: &Value) -> String {
+  let regs: Vec<Option<Val>> = vec![None; 16];
+  let v = build(tree, &regs);
+  let mut h = twox_hash::XxHash64::default();
+  v.as_source().hash(&mut h);
+  format!("{:016x}", h.finish())
+}
+
 enum Ev<'a> {
   S(u32, Cow<'a, str>, Option<Rope<'a>>),
   N(u32, Cow<'a, str>),
@@ -319,6 +327,25 @@ impl Machine {
         json!({})
       }
       "law" => json!({}),
+      "hash_tree" => {
+        // hash a freshly built tree here, in another thread and in another
+        // process
+        let tree = step["tree"].clone();
+        let local = hash_of_tree(&tree);
+        let t2 = tree.clone();
+        let threaded = std::thread::spawn(move || hash_of_tree(&t2)).join().unwrap_or_default();
+        let exe = std::env::current_exe().unwrap();
+        let mut child = std::process::Command::new(exe)
+          .arg("hashproc")
+          .stdin(std::process::Stdio::piped())
+          .stdout(std::process::Stdio::piped())
+          .spawn()
+          .expect("spawn hashproc");
+        child.stdin.take().unwrap().write_all(tree.to_string().as_bytes()).unwrap();
+        let out = child.wait_with_output().unwrap();
+        let other = String::from_utf8_lossy(&out.stdout).trim().to_string();
+        json!({"local": local, "thread": threaded, "process": other})
+      }
       "parse" => {
         // one of the three parser entry points over raw bytes
         let bytes = crate::build::bytes_of(&step["b"]);
